@@ -503,6 +503,9 @@ def gen_program(rng, pause_bias=0.0):
         pos = rng.randint(0, len(driver))
         driver[pos:pos] = pre + mid
     driver.append(['run', rng.choice((4, 8, 16))])
+    if rng.random() < 0.06:
+        # a late clock: one ulp is large, relative tolerances are wide
+        driver.insert(0, ['run', float(rng.choice((2 ** 20, 2 ** 30, 10 ** 6 + 0.5)))])
     return {'engine': 'envsim', 'tiebreak': core.gen_tiebreak(rng), 'driver': driver}
 
 
